@@ -292,7 +292,9 @@ def eager_env(trace, caught: str = "CAUGHT") -> dict:
     for i_, n in enumerate(nodes_):
         if n.kind == "test" and i_ + 1 < len(nodes_):
             lab = [l for m, l in trace.cfg.succ[n.id] if m == nodes_[i_ + 1].id]
-            tests.append((unparse(sub(n.ast)), lab[0] if lab else "?"))
+            rt = sub(n.ast)
+            tests.append((unparse(rt), lab[0] if lab else "?"))
+            sym.setdefault("__test_asts__", []).append(rt)
             continue
         if i_ + 1 < len(nodes_) and nodes_[i_ + 1].kind == "handler" and n.kind == "stmt":
             continue  # this statement raised: its assignment did not happen
@@ -314,6 +316,21 @@ def eager_env(trace, caught: str = "CAUGHT") -> dict:
                     for i, e in enumerate(t.elts):
                         if isinstance(e, ast.Name):
                             sym[e.id] = v.elts[i] if isinstance(v, (ast.Tuple, ast.List)) and len(v.elts) == len(t.elts) else ast.Subscript(value=v, slice=ast.Constant(value=i), ctx=ast.Load())
+        elif n.kind == "stmt" and isinstance(n.ast, ast.Expr) and isinstance(n.ast.value, ast.Call) and isinstance(n.ast.value.func, ast.Attribute) \
+                and isinstance(n.ast.value.func.value, ast.Name) and n.ast.value.func.attr in ("append", "extend") and len(n.ast.value.args) == 1 \
+                and isinstance(sym.get(n.ast.value.func.value.id), (ast.List, ast.BinOp)):
+            # a local list built on this path: `x.append(E)` / `x.extend(Y)` are what x holds afterwards
+            x = n.ast.value.func.value.id
+            arg_ = sub(n.ast.value.args[0])
+            cur = sym[x]
+            if n.ast.value.func.attr == "append":
+                sym[x] = ast.List(elts=list(cur.elts) + [arg_], ctx=ast.Load()) if isinstance(cur, ast.List) else ast.BinOp(left=cur, op=ast.Add(), right=ast.List(elts=[arg_], ctx=ast.Load()))
+            elif isinstance(arg_, ast.List) and isinstance(cur, ast.List):
+                sym[x] = ast.List(elts=list(cur.elts) + list(arg_.elts), ctx=ast.Load())
+            elif isinstance(cur, ast.List) and not cur.elts:
+                sym[x] = arg_  # extending the empty list: the elements of the argument
+            else:
+                sym[x] = ast.BinOp(left=cur, op=ast.Add(), right=arg_)
         elif n.kind == "stmt" and isinstance(n.ast, ast.AugAssign) and isinstance(n.ast.target, ast.Name):
             sym[n.ast.target.id] = ast.BinOp(left=sub(n.ast.target), op=n.ast.op, right=sub(n.ast.value))
     sym["__sub__"] = sub
@@ -357,6 +374,21 @@ def _focus_decider(fv, focus):
     return dec
 
 
+def _literal_truth(a):
+    if isinstance(a, (ast.List, ast.Tuple, ast.Set)):
+        return bool(a.elts)
+    if isinstance(a, ast.Dict):
+        return bool(a.keys)
+    if isinstance(a, ast.Constant):
+        return bool(a.value)
+    if isinstance(a, ast.BinOp) and isinstance(a.op, ast.Add) and isinstance(a.left, ast.List) and a.left.elts:
+        return True
+    if isinstance(a, ast.UnaryOp) and isinstance(a.op, ast.Not):
+        t = _literal_truth(a.operand)
+        return None if t is None else not t
+    return None
+
+
 def outcome_rows(fv, raising_stmts=(), decide=None, caught: str = "CAUGHT", focus=None):
     if focus is not None and decide is None:
         decide = _focus_decider(fv, set(focus))
@@ -371,19 +403,23 @@ def outcome_rows(fv, raising_stmts=(), decide=None, caught: str = "CAUGHT", focu
             d = decide(n, env)
             if d is not None:
                 return d
-        v = inline(n.ast, env)
-        if isinstance(v, (ast.List, ast.Tuple, ast.Set)):
-            return bool(v.elts)
-        if isinstance(v, ast.Dict):
-            return bool(v.keys)
-        if isinstance(v, ast.Constant):
-            return bool(v.value)
         return None
 
     for tr in fv.cfg.simulate(dec, follow_exc=(lambda n, env: n.kind == "stmt" and id(n.ast) in rs) if rs else None):
         nodes = tr.nodes
         sym = eager_env(tr, caught)
         conds = list(sym["__tests__"])
+        # infeasible paths: a value the path itself built decides its own test; one value cannot test both ways
+        feasible = True
+        seen_t = {}
+        for (txt, out), a in zip(conds, sym.get("__test_asts__", [])):
+            lit = _literal_truth(a)
+            if lit is not None and (out == "T") != lit:
+                feasible = False
+            if seen_t.setdefault(txt, out) != out:
+                feasible = False
+        if not feasible:
+            continue
         last = tr.last_stmt()
         ret = None
         if tr.exit_kind == "return_exit" and last is not None and isinstance(last.ast, ast.Return) and last.ast.value is not None:
